@@ -279,6 +279,82 @@ def additivity_check(c):
     return None
 
 
+def inventory_fold_one(spec, grouped):
+    """One case of the inventory stream: None if the implementation agrees with the independent fold, else
+    (query, got, expected)."""
+    from beancount.core import amount, inventory
+    D = decimal.Decimal
+
+    def build():
+        rows = []
+        for g, ps in spec:
+            if ps is None:
+                rows.append((g, None))
+            else:
+                inv = inventory.Inventory()
+                for num, cur in ps:
+                    inv.add_amount(amount.Amount(D(num), cur))
+                rows.append((g, inv))
+        return rows
+
+    def canon(inv):
+        return None if inv is None else sorted((str(p.units.number), p.units.currency) for p in inv)
+    rows = build()
+    t = impl.make_table('t', [('g', str), ('inv', inventory.Inventory)], rows)
+    conn = impl.connection({'t': t})
+    q = ('SELECT g, first(inv) AS f, sum(inv) AS s, last(inv) AS l, count(inv) AS n FROM #t GROUP BY g' if grouped
+         else 'SELECT first(inv) AS f, sum(inv) AS s, last(inv) AS l, count(inv) AS n FROM #t')
+    # expected: partition in order of first appearance, fold each class over fresh values
+    fresh = build()
+    classes = {}
+    for g, inv in fresh:
+        classes.setdefault(g if grouped else '', []).append(inv)
+    want = []
+    for g, invs in classes.items():
+        tot = inventory.Inventory()
+        for inv in invs:
+            if inv is not None:
+                tot.add_inventory(inv)
+        nn = [i for i in invs if i is not None]
+        row = [canon(nn[0]) if nn else None, canon(tot), canon(invs[-1]), len(nn)]
+        want.append(([g] if grouped else []) + row)
+    try:
+        outs = []
+        for _rep in range(2):
+            got = conn.execute(q).fetchall()
+            outs.append([([r[0]] if grouped else []) + [canon(r[-4]), canon(r[-3]), canon(r[-2]), r[-1]] for r in got])
+        table_after = [canon(inv) for _, inv in rows]
+    except Exception as e:  # noqa: BLE001
+        return q, f'exception {e!r}', want
+    table_want = [canon(inv) for _, inv in fresh]
+    if outs[0] != want or outs[1] != want or table_after != table_want:
+        return (q, {'first_run': outs[0], 'second_run': outs[1], 'table_after': table_after},
+                {'rows': want, 'table': table_want})
+    return None
+
+
+def inventory_fold_check(rng, n):
+    """Implementation vs an independent fold: user tables with an Inventory column, grouped sum / first / last / count
+    next to each other, each statement executed twice (aggregation must not modify or alias its input values: the
+    second run and the table itself are compared with the first)."""
+    bad, ran = [], 0
+    for _ in range(n):
+        spec = []
+        for _ in range(rng.randint(2, 7)):
+            g = rng.choice(['a', 'b', 'c'])
+            if rng.random() < 0.15:
+                spec.append((g, None))
+            else:
+                spec.append((g, [(rng.choice([1, 2, 3, -1, -2]), rng.choice(['USD', 'EUR', 'HOOL']))
+                                 for _ in range(rng.randint(0, 2))]))
+        grouped = rng.random() < 0.7
+        r = inventory_fold_one(spec, grouped)
+        ran += 1
+        if r is not None:
+            bad.append((r[0], spec, r[1], r[2], grouped))
+    return ran, bad
+
+
 LEDGER = '''2020-01-01 open Assets:Cash
 2020-01-01 open Assets:Bank
 2020-01-02 note Assets:Cash "alpha"
@@ -396,12 +472,19 @@ def run(tier, rng):
             meta_bad += 1
             violations.append(core.Violation('additivity', f'{r} on rows {c["rows"]}', {'case': c, 'what': r},
                                              signature='additivity:' + repr(c['rows'])[:200]))
+    ni, ibad = inventory_fold_check(rng, 150 if tier == 'quick' else 2000)
+    for q, spec, got, want, grouped in ibad[:2]:
+        violations.append(core.Violation(
+            'inventory-fold', f'{q} over rows {spec}: got {got}, the fold of each group over the unmodified rows gives {want}',
+            {'inventory_rows': spec, 'grouped': grouped, 'query': q, 'got': got, 'expected': want},
+            signature='invfold:' + q + repr(spec)[:150]))
     nt, tbad = typed_table_grouping()
     for q, got, want in tbad[:2]:
         violations.append(core.Violation('typed-table-grouping', f'{q}: got {got}, expected {want}',
                                          {'query': q, 'got': got, 'expected': want, 'ledger': LEDGER}, signature='typed:' + q))
     cov = {
-        'evaluations': len(cases) + nt, 'distinct_nontrivial': nontrivial, 'typed_table_checks': nt,
+        'evaluations': len(cases) + nt + ni, 'distinct_nontrivial': nontrivial, 'typed_table_checks': nt,
+        'inventory_fold_checks': ni,
         'rule': 'random aggregate SELECTs: 0-3 grouping keys (expressions of depth<=2; referenced by position / output name / '
                 'expression; visible or hidden; explicit or implicit GROUP BY), 0-3 aggregate targets (count(*), count(x), sum over '
                 'int/decimal/bool, first, last, min, max over every type; arithmetic over aggregates), WHERE, HAVING, ORDER BY incl. hidden '
@@ -414,6 +497,9 @@ def run(tier, rng):
 
 
 def replay(rec):
+    if 'inventory_rows' in rec:
+        spec = [(g, None if ps is None else [tuple(p) for p in ps]) for g, ps in rec['inventory_rows']]
+        return inventory_fold_one(spec, rec['grouped']) is None
     c = rec['case']
     c['rows'] = [tuple(_unjson(v, t) for v, (_, t) in zip(r, c['cols'])) for r in c['rows']]
     c['order'] = [tuple(o) for o in c['order']]
